@@ -27,7 +27,9 @@ func verifRevDepsBody(n int) {
 		if verifBool("running") {
 			running[i] = true
 			conf := &types.ProcessConfig{Name: verifNodeNames[i], ReplicaName: verifNodeNames[i], Replicas: 1, DependsOn: deps}
-			r.runningProcesses[verifNodeNames[i]] = &Process{procConf: conf}
+			st := types.NewProcessState(conf)
+			st.Status = types.ProcessStateRunning
+			r.runningProcesses[verifNodeNames[i]] = &Process{procConf: conf, procState: st}
 		}
 	}
 	rev := r.runningProcessesReverseDependencies() // REAL code
